@@ -1,5 +1,5 @@
-\* C12 thorough tier: compaction limit 3, up to 4 commands / 4 updates over 3 segments; all
-\* refinement invariants in every state (no history).
+\* C12 thorough tier: compaction limit 3, up to 4 commands / 4 updates over 4 segments; all
+\* refinement invariants in every state (design level, no history).
 SPECIFICATION Spec
 CONSTANTS
   Names = {"x"}
